@@ -82,4 +82,19 @@ PROPS = {
         "assumptions": ["pairing table malloc/free, malloc_dram/free_dram, gemm_malloc/gemm_free, gemm_acc_malloc/gemm_acc_free, #define/#undef"],
         "design_ref": "DESIGN.md §3.9, §3.14, §4 C08",
     },
+    "C07": {
+        "rules": ["MUT", "ATTRSTORE", "GLOBALSTATE"],
+        "thorough": [],
+        "technique": "static analysis: flow-sensitive alias/taint dataflow for shared IR lists with inter-procedural parameter/return summaries; attribute-store and global-state write rules with a triage table",
+        "level_text": "Source-level purity, decided for every path at once: there is no statement in src/exo that mutates in place a list stored in an IR node "
+        "(or an alias of one: through locals, closures, helper parameters, shape(), memoised results), no attribute store on an object that is not self or freshly "
+        "constructed, and every write to module/class-level state is classified (memo caches, id counter, provenance store benign; static-memory allocation state not). "
+        "The rule is path-insensitive about exceptions (a write anywhere counts), so failing calls are covered. Claim is full up to the stated alias approximation.",
+        "level_note": "Approximation: IR lists are recognised by ADT sequence-field names (args, body, hi, idx, orelse, preds), .shape(), getattr and memo results; "
+        "containers nested deeper than one level are not modelled; calls resolved by name (nested def, module, import, self-method).",
+        "explanation": "MUT: forward may-taint over each function (sources: seq-field reads, shape(), getattr, memo results, tainted parameters by call-site summary, "
+        "closure environments; sanitisers: copy/list/slice/+/comprehension; sinks: subscript store/delete, mutating methods, augmented assignment). ATTRSTORE and GLOBALSTATE enumerate all stores.",
+        "assumptions": ["field-name typing of IR lists", "name-based call resolution"],
+        "design_ref": "DESIGN.md §3.10, §4 C07",
+    },
 }
